@@ -400,17 +400,17 @@ class CtxEngine(object):
              ["x", "y"], {}, "chip"),
             ("iptag_get", lambda: (1 + t.draw(5),), ["x", "y"], {}, "chip"),
             ("iptag_clear", lambda: (1 + t.draw(5),), ["x", "y"], {}, "chip"),
-            ("set_led", lambda: (t.draw(4), bool(t.draw(2))), ["x", "y"], {},
-             "chip"),
+            ("set_led", lambda: self.led_args(), ["x", "y"], {}, "chip"),
             ("fill", lambda: (a(0), t.draw(256), 4 * t.draw(8)),
              ["x", "y", "p"], {}, "chip+p"),
             ("sdram_alloc", lambda: (4 + 4 * t.draw(20), 0),
              ["x", "y", "app_id"], {}, "chip+app"),
             ("sdram_free", lambda: (0x60000408,), ["x", "y"], {}, "chip"),
-            ("send_signal", lambda: (["pause", "cont", "sync0", "sync1",
-                                      "usr0", "usr1", "usr2", "usr3", "timer",
-                                      "exit", "start", "stop", "init",
-                                      "power_down"][t.draw(14)],),
+            ("send_signal", lambda: (self.enum_form(
+                "AppSignal", ["pause", "cont", "sync0", "sync1",
+                              "usr0", "usr1", "usr2", "usr3", "timer",
+                              "exit", "start", "stop", "init",
+                              "power_down"][t.draw(14)]),),
              ["app_id"], {}, "app"),
             ("count_cores_in_state",
              lambda: (["run", ["run", "sync0"], ("wait",), "idle",
@@ -578,6 +578,19 @@ class CtxEngine(object):
                 w.violate("WIRE", "%s: datagram (cmd %d) addressed to chip %r,"
                           " the caller named %r" % (label, d.cmd, dest, want),
                           kind="wrong-chip", method=name)
+            if name == "get_software_version" and d.cmd == 0 and \
+                    d.dest_cpu != 0:
+                # its core argument is called `processor` and was left to its
+                # default: a `p` in some context is not its business
+                w.violate("WIRE", "%s: version request addressed to core %d; "
+                          "no core was named and the default is 0"
+                          % (label, d.dest_cpu), kind="wrong-core",
+                          method=name)
+            if name == "set_led" and d.cmd == 25 and \
+                    d.arg(0) != self.expect_led:
+                w.violate("WIRE", "%s: LED word %#x, expected %#x"
+                          % (label, d.arg(0) or 0, self.expect_led),
+                          kind="wrong-led", method=name)
             if kind in ("chip+p", "raw") and d.dest_cpu != R["p"] and \
                     d.cmd in (0, 2, 3, 5):
                 if name == "get_software_version":
@@ -881,6 +894,29 @@ class CtxEngine(object):
             if t.draw(2):
                 args["board"] = t.draw(24)
         return args
+
+    def enum_form(self, enum_name, name):
+        """A signal / state by its name or as the enumeration's member."""
+        if self.t.draw(3):
+            return name
+        self.w.probe("enum_member_argument")
+        consts = rig_module("rig.machine_control.consts")
+        return getattr(getattr(consts, enum_name), name)
+
+    def led_args(self):
+        """(led or leds, action) for MachineController.set_led; remembers the
+        word the command has to carry."""
+        t = self.t
+        action = [True, False, None][t.draw(3)]
+        act = {True: 3, False: 2, None: 1}[action]
+        if t.draw(3) == 0:
+            leds = sorted({t.draw(4) for _ in range(1 + t.draw(3))})
+            self.expect_led = sum(act << (2 * l) for l in leds)
+            self.w.probe("led_iterable")
+            return (self.iterable_shape(leds), action)
+        led = t.draw(4)
+        self.expect_led = act << (2 * led)
+        return (led, action)
 
     def iterable_shape(self, xs):
         """The values xs as the caller might hand them over."""
